@@ -397,21 +397,37 @@ def sweep_C07(ctx):
 
 
 # ---------------------------------------------------------------------------
+def run_shuffled(ctx, todo):
+    """todo: (kind, thunk) items.  The kinds run in a seeded random order (so that each kind of
+    query is, in some runs, the first one asked after the last write), items shuffled within a kind."""
+    kinds = sorted(set(k for k, _ in todo))
+    ctx.obs_rng.shuffle(kinds)
+    for k in kinds:
+        items = [f for kk, f in todo if kk == k]
+        ctx.obs_rng.shuffle(items)
+        for f in items:
+            f()
+
+
 def sweep_C08(ctx):
     m, t = ctx.model, ctx.t
     links_in = getattr(m, "links_in", None)
     if links_in is None:
         links_in = m.links
     p2w = m.page_to_we()
+    # every query of the sweep is a separate item; the items run in a seeded random order, so that
+    # state one query leaves in the object cannot be systematically repaired by the next one
+    todo = []
     for w in m.weids():
         prefs = m.we_prefixes(w)
         ctx.obs_rng.shuffle(prefs)
         mine = {l for l, x in p2w.items() if x == w}
-        for inbound, internal, outbound in itertools.product([False, True], repeat=3):
+
+        def pagelinks(w=w, prefs=prefs, mine=mine, inbound=False, internal=False, outbound=False):
             r = guarded(ctx, "C08.pagelinks", t.get_webentity_pagelinks, w, prefs, include_inbound=inbound, include_internal=internal, include_outbound=outbound)
             if not (inbound or internal or outbound):
                 ctx.check("C08.all_false_refused", r[0] == "refused", lambda: "all-false switch combination was not refused")
-                continue
+                return
             ctx.check("C08.pagelinks", r[0] == "ok", lambda: "pagelinks refused for %r %s" % (w, short(prefs)))
             got = sorted((a, b, x) for a, b, x in r[1])
             exp = []
@@ -425,14 +441,26 @@ def sweep_C08(ctx):
                     exp.append((s, x, n))
             exp.sort()
             ctx.check("C08.pagelinks", got == exp, lambda: "get_webentity_pagelinks(%r, %s, in=%s, int=%s, out=%s) = %s expected %s" % (w, short(prefs), inbound, internal, outbound, short(got), short(exp)))
-        cited = {p2w[x] for (s, x) in m.links if s in mine}
-        citing = {p2w[s] for (s, x) in links_in if x in mine}
-        r = guarded(ctx, "C08.cited", t.get_webentity_outlinks, w, prefs)[1]
-        ctx.check("C08.cited", set(r) - {None} == cited - {None}, lambda: "cited webentities of %r = %s expected %s" % (w, short(sorted(x for x in r if x)), short(sorted(x for x in cited if x))))
-        r = guarded(ctx, "C08.citing", t.get_webentity_inlinks, w, prefs)[1]
-        ctx.check("C08.citing", set(r) - {None} == citing - {None}, lambda: "citing webentities of %r = %s expected %s" % (w, short(sorted(x for x in r if x)), short(sorted(x for x in citing if x))))
-        if None in cited or None in citing:
-            ctx.probe("link_end_without_webentity")
+
+        def cited_(w=w, prefs=prefs, mine=mine):
+            cited = {p2w[x] for (s, x) in m.links if s in mine}
+            r = guarded(ctx, "C08.cited", t.get_webentity_outlinks, w, prefs)[1]
+            ctx.check("C08.cited", set(r) - {None} == cited - {None}, lambda: "cited webentities of %r = %s expected %s" % (w, short(sorted(x for x in r if x)), short(sorted(x for x in cited if x))))
+            if None in cited:
+                ctx.probe("link_end_without_webentity")
+
+        def citing_(w=w, prefs=prefs, mine=mine):
+            citing = {p2w[s] for (s, x) in links_in if x in mine}
+            r = guarded(ctx, "C08.citing", t.get_webentity_inlinks, w, prefs)[1]
+            ctx.check("C08.citing", set(r) - {None} == citing - {None}, lambda: "citing webentities of %r = %s expected %s" % (w, short(sorted(x for x in r if x)), short(sorted(x for x in citing if x))))
+            if None in citing:
+                ctx.probe("link_end_without_webentity")
+
+        for inbound, internal, outbound in itertools.product([False, True], repeat=3):
+            todo.append((0, lambda f=pagelinks, a=inbound, b=internal, c=outbound: f(inbound=a, internal=b, outbound=c)))
+        todo.append((1, cited_))
+        todo.append((2, citing_))
+    run_shuffled(ctx, todo)
     if len(m.weids()) >= 2 and len(m.links) >= 2:
         ctx.res.nontrivial = True
     ctx.note("C08", sorted(m.links.items()))
